@@ -212,11 +212,15 @@ macro_rules! impl_float {
                     if mf == 0 {
                         json!({"neg":neg,"cls":"zero","m":[],"e":0,"bits":bh})
                     } else {
-                        json!({"neg":neg,"cls":"finite","m":dec_digits(&mf.to_string()),"e":1-bias,"bits":bh})
+                        let tz = mf.trailing_zeros();
+                        json!({"neg":neg,"cls":"finite","m":dec_digits(&mf.to_string()),"e":1-bias,"bits":bh,
+                               "mo":dec_digits(&(mf >> tz).to_string()),"eo":1-bias+tz as i64})
                     }
                 } else {
                     let m = mf | (1u64 << $mbits);
-                    json!({"neg":neg,"cls":"finite","m":dec_digits(&m.to_string()),"e":ef as i64 - bias,"bits":bh})
+                    let tz = m.trailing_zeros();
+                    json!({"neg":neg,"cls":"finite","m":dec_digits(&m.to_string()),"e":ef as i64 - bias,"bits":bh,
+                           "mo":dec_digits(&(m >> tz).to_string()),"eo":ef as i64 - bias + tz as i64})
                 }
             }
             fn from_val(v: &Value) -> Self {
